@@ -59,7 +59,28 @@ def strategy(ctx):
                          pools=(HELPERLIKE,))
     adv2 = S.circuit_spec(min_inputs=2, max_inputs=5, min_gates=2, max_gates=8, max_fanin=5, io_outputs=True, min_fanin_nary=2,
                           pools=(list(S.COMPOUND) + ["N1", "N10", "N11", "N13", "N17", "N19", "d", "dA", "a_0", "a0", "N1_X", "d_X"],))
-    return st.builds(lambda s: {"spec": s}, st.one_of(plain, plain, adv, adv2))
+    return st.builds(lambda s: {"spec": s}, st.one_of(plain, plain, adv, adv2, _twins(adv2)))
+
+
+TW = [(["a_b", "c"], ["a", "b_c"]), (["a", "b", "c"], ["a_b", "c"]), (["a", "b", "c"], ["a", "b_c"]), (["a_b_c", "a"], ["a_b", "c_a"]),
+      (["a_b", "c_a"], ["a", "b_c", "a"]), (["b_a", "c"], ["b", "a_c"]), (["a", "b"], ["a_b"]), (["N1", "N10"], ["N1", "N1_X"])]
+
+
+@st.composite
+def _twins(draw, base):
+    """two gates whose fan-in names, joined with underscores, coincide although the fan-in sets differ"""
+    spec = draw(base)
+    l1, l2 = draw(st.sampled_from(TW))
+    if draw(st.booleans()):
+        l1, l2 = l2, l1
+    names = {x[0] for x in spec["nodes"]}
+    head = [[n, "input", [], False] for n in dict.fromkeys(l1 + l2) if n not in names]
+    fresh = [n for n in ("tw1", "tw2", "k1", "k2") if n not in names][:2]
+    fam = ["and", "nand", "or", "nor", "and", "or", "xor", "xnor"]
+    tail = [[fresh[0], draw(st.sampled_from(fam)), list(dict.fromkeys(l1)), True],
+            [fresh[1], draw(st.sampled_from(fam)), list(dict.fromkeys(l2)), True]]
+    spec["nodes"] = head + spec["nodes"] + tail
+    return spec
 
 
 def kleene_tables(c, isx_in, val_in, W):
